@@ -68,7 +68,7 @@ class ExprMixin:
             return self.const({"True": True, "False": False, "None": None}[e.id])
         mod = self.frames[-1].module
         kind, obj = self.repo.resolve_name(mod, e.id)
-        if kind == "ext" and obj == e.id:
+        if kind == "ext" and obj == e.id and e.id not in mod.imports:
             return sv.SPy("builtin", e.id)
         return self.py_value(kind, obj, path)
 
@@ -94,10 +94,24 @@ class ExprMixin:
 
     def _e_JoinedStr(self, e, path):
         # message text is dropped, sub-expressions are still evaluated (implicit exceptions!)
+        vals, tmpl = [], []
         for v in e.values:
             if isinstance(v, ast.FormattedValue):
-                self.eval(v.value, path)
+                vals.append(self.eval(v.value, path))
+                tmpl.append("{}")
+            elif isinstance(v, ast.Constant):
+                tmpl.append(str(v.value))
         self.dropped += 1
+        if vals and all(isinstance(x, (sv.SInt, sv.SStr)) for x in vals):
+            # structured name: an injective function of its integer / string parts
+            # (assumption: str(int) formatting with literal separators is injective)
+            name = "fstr:" + "".join(tmpl)
+            f = z3.Function(name, *[x.e.sort() for x in vals], sv.StrS)
+            app = f(*[x.e for x in vals])
+            for i, x in enumerate(vals):
+                inv = z3.Function(f"{name}#inv{i}", sv.StrS, x.e.sort())
+                path.assume(inv(app) == x.e)
+            return sv.SStr(app)
         return sv.SStr(z3.Const(sv.uid("fstr"), sv.StrS))
 
     def _e_FormattedValue(self, e, path):
@@ -719,7 +733,10 @@ class ExprMixin:
 
     def as_sequence(self, it, path, node):
         if isinstance(it, sv.SList):
-            return Seq(it.n, it.at)
+            sq = Seq(it.n, it.at)
+            if getattr(it, "key_pred", None) is not None:
+                sq.key_pred = it.key_pred
+            return sq
         if isinstance(it, sv.STup):
             return Seq(z3.IntVal(len(it.items)), self.list_of(list(it.items)).at)
         if isinstance(it, sv.SDict):
@@ -804,7 +821,20 @@ class ExprMixin:
                 finally:
                     self.silent -= 1
 
-            return sv.SList(seq.n, at, fresh=True)
+            res = sv.SList(seq.n, at, fresh=True)
+            d = getattr(seq, "dict_src", None)
+            if d is not None and getattr(d, "ksort", None) is not None:
+                def pred(kk, self=self, e=e, gen=gen, d=d, env0=env0, path=path):
+                    p = path.clone()
+                    p.env = dict(env0)
+                    self.silent += 1
+                    try:
+                        self.assign(gen.target, d.val(kk), p)
+                        return self.truthy(self.eval(e.elt, p), p)
+                    finally:
+                        self.silent -= 1
+                res.key_pred = (d, pred)
+            return res
         return self.lib_comprehension(e, path, kind)
 
     # ------------------------------------------------------------------ purity (syntactic)
